@@ -613,7 +613,8 @@ def _c19_sign(scheme, rd):
     return dict(name="%s adapter: Sign returns a signature only for the requested digest" % scheme, dir="mpc/binance/" + scheme, files=["gen/%s_sign.go.txt" % scheme], entry="verifH_C19_digest",
                 args=["-tags", "math_big_pure_go", "-preempt", "0", "-det", "-noinit", "-redirect", rd], replay_args=["-nativeredirect"], shards=16, shard_depth=6,
                 count=["assert:C19-", "panic:", "deadlock:"], expect_covers=["signature-returned", "refused", "end"],
-                bounds={"digest length": "{0,1,20,31,32,33,48,64} bytes, all byte values", "library outcome": "signs the integer it was given, or reports another signed message (same length or one byte longer, all byte values)",
+                tiers={"thorough": {"params": {"hAllLens": 1}, "bounds": {"digest length": "{0,1,20,31,32,33,48,64} bytes, all byte values"}}},
+                bounds={"digest length": "{0,1,31,32,33,48} bytes, all byte values", "library outcome": "signs the integer it was given, or reports another signed message (same length or one byte longer, all byte values)",
                         "math/big": "SetBytes, Rsh, Bytes, BitLen, Lsh executed from the pure-Go sources on symbolic words"})
 
 
@@ -712,3 +713,53 @@ PROPS["C11"]["runs"] += [
         count=["assert:C11-", "panic:", "deadlock:"], covers=["end", "returned-error"],
         bounds={"n": 3, "t": 2, "deliveries": "0..6", "context": "as in the BLS run", "preemptions": "<= 1 plus all choices at blocking points"}),
 ]
+
+PROPS["C10"]["runs"].append(
+    _ps("verifH_C10_ps_sign_resized", ["ps_c10b.go.txt", "ps_c10.go.txt"], name="TPS.Sign: a genuine request re-encoded with one vector of the wrong length (natively replayable twin of the havoc run)", count=["panic:", "deadlock:", "assert:C10-"], covers=["refused", "returned"],
+        bounds={"vector": "one of A, B, proof X, Y, D, F (symbolic)", "new length": "0, n-1, n+1 (symbolic)", "rest": "as the prover made it"}))
+
+PROPS["C17"]["runs"].append(
+    dict(name="three frames through handleConn, all held by the receiver before it looks at them", dir="net", files=["net_c16.go.txt", "net_model.go.txt"], entry="verifH_C17_frames_held", args=_NET_ARGS, replay_args=_NET_REPLAY,
+         count=["assert:C17-", "panic:", "deadlock:"], expect_covers=["received"], bounds={"frames": "MPC (32-byte symbolic topic, 2 symbolic bytes), Discovery (32-byte symbolic topic, 1 byte), None (1 byte)", "entry": "handleConn only (no internal function called)"}))
+PROPS["C15"]["runs"].append(
+    dict(name="a started topic releases one slot of its senders' quota, not all", dir="msg", files=["msg_c15.go.txt"], entry="verifH_C15_release_scope", args=["-realhex", "-preempt", "0"],
+         count=["assert:C15-", "panic:", "deadlock:"], expect_covers=["end"], bounds={"scenario": "sender at its limit (two buffered topics), one of them (symbolic) starts, two further topics arrive", "MaxInFlightTopicsBySender": 1}))
+
+# C07 composes over the per-topic member tags: two configured members with the same tag cannot both be heard (C13's PRF-input run)
+PROPS["C07"]["runs"] += [dict(r, name="distinct members have distinct tags (PRF input): " + r.get("name", r["entry"])) for r in PROPS["C13"]["runs"] if r["entry"] == "verifH_C13_prf"]
+
+# C11 "before synchronisation ...": the real disc.Member.Synchronize returns once its context ends, whatever the peers did (the C07 L3 run; a loop that never
+# ends is reported when the native replay hangs)
+PROPS["C11"]["runs"] += [dict(r, name="Synchronize returns when its context ends: " + r.get("name", r["entry"]), count=["panic:", "deadlock:"]) for r in PROPS["C07"]["runs"] if r["entry"] == "verifH_C07_sync"][:1]
+
+_BUSY = dict(name="a session stuck inside the processing of one of its messages does not hold up a session on another topic", dir="threshold", files=["thr_c12.go.txt"], entry="verifH_C12_busy_session",
+             args=_THR_CONC + ["-preempt", "0", "-det"], count=["assert:C12-", "panic:", "deadlock:"], expect_covers=["end"],
+             bounds={"sessions": "Sign on topic A (backend busy, one dispatcher stuck inside its reliable-broadcast layer), then Sign on topic B", "schedule": "canonical"})
+PROPS["C12"]["runs"].append(_BUSY)
+PROPS["C11"]["runs"].append(dict(_BUSY))
+
+PROPS["C03"]["runs"].append(dict(_TWO_DISP))  # "at most once per sender and round" rests on the receiver being entered by one dispatcher at a time
+# C04: acknowledgements are booked under the sender they are about (the wire round trip of C13 for every 16-bit sender)
+PROPS["C04"]["runs"] += [dict(r, name="acknowledgement wire round trip: " + r.get("name", r["entry"])) for r in PROPS["C13"]["runs"] if r["entry"] == "verifH_C13_ack"]
+
+# C13 "identifiers anywhere in 0..65535 ... complete exactly as sessions with small identifiers do": the orchestrator accepts every set of distinct 16-bit
+# party identifiers (0 and 65535 included) and refuses only real duplicates (C06's run over all 16-bit ids)
+PROPS["C13"]["runs"] += [dict(r, name="every set of distinct 16-bit party identifiers is accepted: " + r["entry"]) for r in PROPS["C06"]["runs"] if r["entry"] == "verifH_C06_dup"]
+
+# sessions with concrete party identifiers that are not 1..n (catches an identifier flowing into the algebra, where the symbolic-identifier runs lose the link between
+# the bit-vector identifier and the Real evaluation point)
+_C13_BLS2 = _bls("verifH_C01_keygen", ["bls_c01.go.txt"], params={"kN": 3, "kT": 2, "kOrder": 0, "kIds": 2}, name="BLS session with party identifiers that are not 1..n ({2,5,7}, {1,2,4}, {5,300,40000}, {0,1,2})",
+                 count=["assert:C01-", "assert:C13-", "panic:", "deadlock:"], covers=["end"], bounds={"n": 3, "t": 2, "party identifiers": "4 concrete shapes (symbolic choice)", "delivery": "send order"})
+_C13_PS2 = _ps("verifH_C08_threshold", ["ps_c08.go.txt"], params={"pN": 3, "pT": 2, "pL": 1, "pOrder": 0, "pIds": 2}, name="PS session with party identifiers that are not 1..n ({2,5,7}, {1,2,4}, {5,300,40000}, {0,1,2})",
+               count=["assert:C08-", "assert:C13-", "panic:", "deadlock:"], covers=["end"], bounds={"n": 3, "t": 2, "party identifiers": "4 concrete shapes (symbolic choice)", "delivery": "send order"})
+PROPS["C13"]["runs"] += [_C13_BLS2, _C13_PS2]
+PROPS["C01"]["runs"].append(dict(_C13_BLS2))
+PROPS["C08"]["runs"].append(dict(_C13_PS2))
+
+# C05 "different values shown to different parties": the agreement of the reliable broadcast it rests on (C02's smaller BMC run)
+PROPS["C05"]["runs"] += [dict(r, name="reliable-broadcast agreement under an equivocating participant: " + r.get("name", "")) for r in PROPS["C02"]["runs"] if r["entry"] == "verifH_C02_bmc"][:1]
+
+PROPS["C20"]["runs"].append(
+    dict(name="disc: Synchronize || HandleMessage (a peer's early query / announcement / response)", dir="disc", files=["disc_c20.go.txt", "disc_model.go.txt"], entry="verifH_C20_disc",
+         args=["-realhex", "-redirect", _DISC_RD, "-race", "-acqonly", "-preempt", "2"], count=["race:", "panic:", "deadlock:"], expect_covers=["end"], replay_repeat=2, replay_args=["-nativeredirect", "-instr", "discovery.go"],
+         bounds={"goroutines": "Synchronize (caller), one dispatcher with two messages of peer 2 (types symbolic), deadline", "preemptions": "<= 2", "sync.Map": "model with internal synchronisation (one mutex), also in the native replay (so that the schedule can be enforced at its operations)"}))
